@@ -83,6 +83,20 @@ class C07(Prop):
                     yield mk_num_case(rng.choice(["weighted_var_axis", "weighted_std_axis"]), et,
                                       [(shape, data, la), ([N], w1, lw)], "%d %s" % (axis, dd), axis=axis, ddof=ddof)
 
+        # extreme scales: every documented quantity (mu_2, mu_3, mu_4, sigma^3, sigma^4 ratios) is representable,
+        # but intermediate forms such as mu_2^3 or mu_2^2 * mu_2 are not (the scales keep n |x|^3, resp. n |x|^4, finite)
+        for rep in range(10 if tier == "quick" else 300):
+            for et in FLOATS:
+                n = rng.range(3, 12)
+                base = float_pool(0, n, rng, et)
+                if len(set(base)) < 2:
+                    base[0] += 1.0
+                for r, ks in (("skewness", (30, -30) if et == "f32" else (300, -300)), ("kurtosis", (24, -24) if et == "f32" else (240, -240))):
+                    k = rng.choice(ks)
+                    data = [FP(et).r(x * 2.0 ** k) for x in base]
+                    la = rng.choice(zoo([n], rng, 2))
+                    yield mk_num_case(r, et, [([n], data, la)])
+
     def corpus(self):
         from ..layouts import contiguous
         z = enc_vals("f64", [0.0])[0]
